@@ -325,7 +325,8 @@ func (g *Gen) rangeOfA(t types.Type, s string, al string) string {
 		}
 		return "true"
 	case *types.Map, *types.Chan:
-		return fmt.Sprintf("(and (<= 0 %s) (< %s %s))", s, s, al)
+		// (a map or channel is an object of its own: its root is allocated too, which is what loop frames ask for)
+		return fmt.Sprintf("(and (<= 0 %s) (< %s %s) (< (ref.root %s) %s))", s, s, al, s, al)
 	case *types.Slice:
 		z := g.idxLit(0)
 		return fmt.Sprintf("(and (<= 0 (sl.ref %s)) (< (sl.ref %s) %s) %s %s %s %s (=> (= (sl.ref %s) 0) (= (sl.cap %s) %s)))", s, s, al,
